@@ -794,7 +794,8 @@ def idle_hours_family(chk):
 
 
 def run(chk):
-    chk.proof(MODULE, THEOREMS)
+    # (round 8) the look-up clause at the concrete per-building block of the loop body: Props/Step.lean
+    chk.proof(MODULE, THEOREMS + ['Uwg.StepProps.step_schedule_lookups'], extra_modules=['UwgVerif.Props.Step'])
     if chk.tier == 'thorough':
         chk.leanchecker([MODULE])
     from uwg.simparam import SimParam
